@@ -197,6 +197,16 @@ pub(crate) enum Expr {
 }
 
 impl Expr {
+    /// The identifier an assignable path (`a`, `a[i]`, `a.b.c`) is rooted at.
+    fn path_root_ident(&self) -> Option<&super::Ident> {
+        match self {
+            Expr::Value(Value::Ident(ident)) => Some(ident),
+            Expr::Index { lhs_raw, .. } => lhs_raw.path_root_ident(),
+            Expr::DotLookup { lhs, .. } => lhs.path_root_ident(),
+            _ => None,
+        }
+    }
+
     pub(crate) fn validate(
         &self,
         flags: &TypecheckFlags<impl Deref<Target = ClassType> + Debug>,
@@ -223,6 +233,17 @@ impl Expr {
         match self {
             Expr::Value(val) => val.for_type(flags),
             Expr::BinOp { lhs, op, rhs } => {
+                if op.is_op_assign() || matches!(op, Op::Unwrap) {
+                    if let Some(root) = lhs.path_root_ident() {
+                        if root.is_const() {
+                            bail!(
+                                "cannot reassign using {op} to {}, which is const",
+                                root.name()
+                            )
+                        }
+                    }
+                }
+
                 let lhs = if op.is_op_assign() {
                     match lhs.as_ref() {
                         Expr::Value(Value::Ident(ident)) => {
